@@ -65,6 +65,27 @@ class Ref(Val):
 
     __repr__ = __str__
 
+    def element(self, idx):
+        """element read of a concatenation at the first / last slot of one of its parts: the element of that part (the part is taken to be non-empty:
+        recorded in ASSUMED_NONEMPTY)"""
+        t = self.term
+        if isinstance(t, Term) and t.head == 'cat' and isinstance(idx, Rat):
+            off = sym.C(0)
+            for part in t.args:
+                ln = _len_of(part) if not (isinstance(part, Num) and part.length is None) else sym.C(1)
+                if ln is None:
+                    break
+                if isinstance(part, Num) and part.length is not None and not ln.is_const():
+                    for at_, what in ((sym.C(0), idx - off), (ln - sym.C(1), off + ln - sym.C(1) - idx)):
+                        if what.is_zero():
+                            ASSUMED_NONEMPTY.add(str(part)[:60])
+                            return part.at(at_).r
+                off = off + ln
+        return sym.A('el', self, idx)
+
+
+ASSUMED_NONEMPTY = set()
+
 
 class Num(Val):
     def __init__(self, r: Rat, length: Optional[Rat] = None, kind: Optional[str] = None, fresh: bool = True):
